@@ -6,7 +6,7 @@ CONSTANT BP = 60
 CONSTANT PairStride = 97
 CONSTANT PairMinGood = 2
 CONSTANT NS = 110
-CONSTANT StackOffsets = {3, -7, 20}
+CONSTANT StackOffsets <- QuickOffsets
 CONSTANT StackGrids = {1, 3}
 CONSTANT Families = {"single", "infl", "pair", "pairinfl", "stack"}
 INIT Init
